@@ -81,7 +81,8 @@ func runC08(e *core.Env) {
 	g.NoExt = true
 	var imgs []*gen.Graph
 	for i := 0; i < 3; i++ {
-		gr := g.Graph(gen.Opts{NoDigestTags: true, NoExternal: true, Loops: true})
+		// (every other case steers the third image towards the rare shape the copy postpones: a referrer that lists its own subject)
+		gr := g.Graph(gen.Opts{NoDigestTags: true, NoExternal: true, Loops: true, ForceLoop: i == 2 && e.Choose("gen", 2, "forceloop") == 1})
 		gr.Install(src, "proj/app", fmt.Sprintf("i%d", i))
 		imgs = append(imgs, gr)
 	}
